@@ -74,6 +74,20 @@ CLAIMS = {
          "computation of the two program shapes.",
     technique="TLA+ spec (ExecMem) + TLC enumeration of fault plans; fault-injection replay; TLC trace validation "
               "against OrcSystem and ExecMem"),
+ "C08": dict(
+    text="TLC explores all interleavings of the PlusCal model Concurrency (orc_init's double-checked flag, the C11 "
+         "once protocol, allocator sections under the global mutex; one label per shared access; vector-clock "
+         "happens-before ghost): InitOnce, OnceOnce, NoRace, published value seen by every caller, no deadlock, "
+         "termination under fairness; four weakened variants are each refuted.  Seeded multi-threaded runs of the "
+         "real library (2..16 threads, pre-lock yields) are recorded and validated by TLC against Trace_Threads (lock "
+         "discipline, init body once, each OrcOnce initialised once and its value seen by all, right results) and "
+         "Trace_CodeMem (allocator events of all threads form a history CodeMemAbs allows).  Thorough tier adds a "
+         "ThreadSanitizer run of the same driver as an auxiliary observer (Race events have no action).",
+    design_ref="DESIGN.md section 6 C08",
+    note="Exhaustive for 2 threads x 2 once objects and 3 threads x 1 (3 x 2 safety-only in the thorough tier); "
+         "memory-order weakening cannot be observed in x86 executions and is decided by the model (TSan auxiliary).",
+    technique="PlusCal/TLA+ spec + TLC (all interleavings, negative variants); TLC trace validation of "
+              "multi-threaded executions ordered by in-lock sequence numbers"),
 }
 
 NOT_APPLICABLE = {
